@@ -236,6 +236,9 @@ fn run_history_inner(ops: &[Op], check_c04: bool) -> Result<HistoryOutcome, (Str
         }
     }
     out.left_managed_at_destroy = left;
+    if check_c04 && left > 0 {
+        return Err(("leak:managed-at-destroy".into(), format!("{left} object(s) were still managed when the collector was destroyed and were not freed")));
+    }
     // unmanaged (handed over) objects must have survived the destruction
     for (i, o) in objs.iter().enumerate() {
         if !o.freed && !o.managed && verif::heap_is_live(o.obj) != Some(true) {
